@@ -315,21 +315,19 @@ DoStep(path, R, s, id, L) ==
        ELSE LET R1 == [R EXCEPT !.pos = abs]
                 r == ReadLoop(path, R1, cnt, <<>>, 3) IN
             [R |-> r.R, r |-> StepRes(r.st, r.out, id, abs, cnt, L), stop |-> FALSE]
-RECURSIVE RunFrom(_, _, _, _, _)
-RunFrom(path, R, script, id, L) ==
-  IF script = <<>> THEN <<>>
+RECURSIVE ExecFrom(_, _, _, _, _)
+ExecFrom(path, R, script, id, L) ==        \* [rs |-> step results, tags |-> deviation branches taken]
+  IF script = <<>> THEN [rs |-> <<>>, tags |-> R.tags]
   ELSE LET d == DoStep(path, R, Head(script), id, L) IN
        \* the sequential reader is abandoned after its first error or EOF
-       IF path = "seq" /\ d.stop THEN <<d.r>> \o [i \in 1..(Len(script) - 1) |-> [res |-> "skipped", wrong |-> FALSE]]
-       ELSE <<d.r>> \o RunFrom(path, d.R, Tail(script), id, L)
-RECURSIVE TagsFrom(_, _, _, _, _)
-TagsFrom(path, R, script, id, L) ==
-  IF script = <<>> THEN R.tags
-  ELSE LET d == DoStep(path, R, Head(script), id, L) IN
-       IF path = "seq" /\ d.stop THEN d.R.tags ELSE TagsFrom(path, d.R, Tail(script), id, L)
+       IF path = "seq" /\ d.stop
+       THEN [rs |-> <<d.r>> \o [i \in 1..(Len(script) - 1) |-> [res |-> "skipped", wrong |-> FALSE]], tags |-> d.R.tags]
+       ELSE LET e == ExecFrom(path, d.R, Tail(script), id, L) IN [rs |-> <<d.r>> \o e.rs, tags |-> e.tags]
+RunFrom(path, R, script, id, L) == ExecFrom(path, R, script, id, L).rs
 Reader(path, S, id) == IF path = "seek" THEN InitSeek(S, id) ELSE InitSeq(S, id)
-Run(path, L, t, script)  == RunFrom(path, Reader(path, Apply(Stored("A", L), L, t), ReaderId(t)), script, ReaderId(t), L)
-TagsOf(path, L, t, script) == TagsFrom(path, Reader(path, Apply(Stored("A", L), L, t), ReaderId(t)), script, ReaderId(t), L)
+Exec(path, L, t, script) == ExecFrom(path, Reader(path, Apply(Stored("A", L), L, t), ReaderId(t)), script, ReaderId(t), L)
+Run(path, L, t, script)  == Exec(path, L, t, script).rs
+TagsOf(path, L, t, script) == Exec(path, L, t, script).tags
 ScriptOk(path, script) == \A i \in 1..Len(script) : (path = "seq") = (script[i].wh = "none")
 
 --------------------------------------------------------------------------
